@@ -13,7 +13,11 @@
 //! unchanged, transform multiplied by it); another share of the data sets is fed with columns
 //! multiplied by exact powers of two (2^-40, 2^-30, 2^30; per column in correlation mode, one
 //! common exponent in covariance mode), the outputs are descaled exactly and the event again
-//! carries the small integers plus the exponents `cexp`.  No property logic: every verdict (including the
+//! carries the small integers plus the exponents `cexp`.  Graded family: in covariance mode
+//! and for the truncated SVD some columns (p >= 3, at least two of them) are multiplied by
+//! 2^-300 / 2^-600 while at least one stays at 2^0 (`gexp`); this is not an invariance, so
+//! nothing is descaled -- the specification treats the graded columns as exactly zero, which
+//! is correct to 2^-300 relative, far below the quantisation step.  No property logic: every verdict (including the
 //! choice of the scale that is safe for 32-bit arithmetic) is taken by spec/decomp/Pca.tla.
 use rand::rngs::StdRng;
 use rand::Rng;
@@ -58,6 +62,12 @@ struct PcaOut {
 /// `api`: go through `api::UnsupervisedEstimator::fit` / `api::Transformer::transform` (fully
 /// qualified) instead of the inherent methods.
 fn pca_fit(x: &[Vec<i64>], z: &[Vec<i64>], off: &[i64], cexp: &[i32], yexp: i32, k: usize, corr: bool, api: bool) -> Result<Result<PcaOut, ()>, String> {
+    pca_fit_opt(x, z, off, cexp, yexp, k, corr, api, true)
+}
+
+/// `descale_p = false` (graded family): the column factors are part of the problem, the
+/// components are recorded as returned
+fn pca_fit_opt(x: &[Vec<i64>], z: &[Vec<i64>], off: &[i64], cexp: &[i32], yexp: i32, k: usize, corr: bool, api: bool, descale_p: bool) -> Result<Result<PcaOut, ()>, String> {
     type Dm = DenseMatrix<f64>;
     let scale = |m: &[Vec<i64>]| -> DenseMatrix<f64> {
         let rows: Vec<Vec<f64>> = m
@@ -70,7 +80,7 @@ fn pca_fit(x: &[Vec<i64>], z: &[Vec<i64>], off: &[i64], cexp: &[i32], yexp: i32,
     let zm = scale(z);
     let z1 = scale(&z[..z.len() / 2 + 1]);
     let z2 = scale(&z[z.len() / 2 + 1..]);
-    let pback: Vec<f64> = cexp.iter().map(|&e| (2.0f64).powi(e - yexp)).collect();
+    let pback: Vec<f64> = cexp.iter().map(|&e| if descale_p { (2.0f64).powi(e - yexp) } else { 1.0 }).collect();
     let yback = (2.0f64).powi(-yexp);
     guard(move || {
         let par = PCAParameters::default().with_n_components(k).with_use_correlation_matrix(corr);
@@ -96,12 +106,17 @@ struct TsvdOut {
     yzs: Vec<Vec<f64>>,
 }
 
-fn tsvd_fit(x: &[Vec<i64>], z: &[Vec<i64>], k: usize, api: bool) -> Result<Result<TsvdOut, ()>, String> {
+fn dmg(x: &[Vec<i64>], gexp: &[i32]) -> DenseMatrix<f64> {
+    let rows: Vec<Vec<f64>> = x.iter().map(|r| r.iter().enumerate().map(|(j, &v)| v as f64 * (2.0f64).powi(gexp[j])).collect()).collect();
+    DenseMatrix::from_2d_vec(&rows)
+}
+
+fn tsvd_fit(x: &[Vec<i64>], z: &[Vec<i64>], gexp: &[i32], k: usize, api: bool) -> Result<Result<TsvdOut, ()>, String> {
     type Dm = DenseMatrix<f64>;
-    let xm = dm(x);
-    let zm = dm(z);
-    let z1 = dm(&z[..z.len() / 2 + 1]);
-    let z2 = dm(&z[z.len() / 2 + 1..]);
+    let xm = dmg(x, gexp);
+    let zm = dmg(z, gexp);
+    let z1 = dmg(&z[..z.len() / 2 + 1], gexp);
+    let z2 = dmg(&z[z.len() / 2 + 1..], gexp);
     guard(move || {
         let par = SVDParameters::default().with_n_components(k);
         let fitted = if api { <SVD<f64, Dm> as UnsupervisedEstimator<Dm, SVDParameters>>::fit(&xm, par) } else { SVD::fit(&xm, par) };
@@ -244,7 +259,8 @@ fn gen(path: &str) {
     for d in 0..n_data + ladder.len() {
         let rung = if d >= n_data { Some(ladder[d - n_data]) } else { None };
         let big = thorough && d % 4 == 0 && rung.is_none();
-        let p: usize = if rung.is_some() { 1 + d % 3 } else if big { rng.gen_range(3..=8) } else { rng.gen_range(1..=4) };
+        let graded = d % 16 == 8 && rung.is_none();
+        let p: usize = if graded { rng.gen_range(3..=4) } else if rung.is_some() { 1 + d % 3 } else if big { rng.gen_range(3..=8) } else { rng.gen_range(1..=4) };
         let wide = d % 3 == 0 && rung.is_none();
         let m: usize = if let Some(r) = rung { r } else if wide { rng.gen_range(2..=p.max(2)) } else if big { rng.gen_range(p + 1..=40) } else { rng.gen_range(p + 1..=12) };
         let fam = if rung.is_some() { "tiny" } else { FAMS[rng.gen_range(0..FAMS.len())] };
@@ -264,14 +280,31 @@ fn gen(path: &str) {
             vec![0; p]
         };
         let scaled = d % 4 == 2;
-        let famtag = format!("{}{}{}", if let Some(r) = rung { format!("ladder{}", r) } else { fam.to_string() }, if wide { "/wide" } else { "" }, if d % 2 == 1 { "/offset" } else if scaled { "/colscale" } else { "" });
+        // graded family: one column at 2^0, at least two at 2^-300 / 2^-600
+        let gexp: Vec<i32> = if graded {
+            let keep = rng.gen_range(0..p);
+            let mut g: Vec<i32> = (0..p).map(|j| if j == keep { 0 } else { [-300, -600, -600, 0][rng.gen_range(0..4)] }).collect();
+            let mut neg = g.iter().filter(|&&e| e < 0).count();
+            for j in 0..p {
+                if neg < 2 && j != keep && g[j] == 0 {
+                    g[j] = -600;
+                    neg += 1;
+                }
+            }
+            g
+        } else {
+            vec![0; p]
+        };
+        let famtag = format!("{}{}{}", if let Some(r) = rung { format!("ladder{}", r) } else { fam.to_string() }, if wide { "/wide" } else { "" }, if d % 2 == 1 { "/offset" } else if scaled { "/colscale" } else if graded { "/graded" } else { "" });
         // ---- PCA, both modes, every k
         for &corr in &[false, true] {
-            if corr && has_constant_column(&x) {
-                continue; // standardisation undefined: outside the statement
+            if corr && (has_constant_column(&x) || graded) {
+                continue; // standardisation undefined: outside the statement / graded: covariance only
             }
             // column-scale family: per-column exponents (correlation) / one common exponent (covariance)
-            let (cexp, yexp): (Vec<i32>, i32) = if !scaled {
+            let (cexp, yexp): (Vec<i32>, i32) = if graded {
+                (gexp.clone(), 0)
+            } else if !scaled {
                 (vec![0; p], 0)
             } else if corr {
                 let mut c: Vec<i32> = (0..p).map(|_| [-40, -30, 0, 30][rng.gen_range(0..4)]).collect();
@@ -283,14 +316,14 @@ fn gen(path: &str) {
                 let e = [-40, -30, 30][rng.gen_range(0..3)];
                 (vec![e; p], e)
             };
-            let full = pca_fit(&x, &z, &off, &cexp, yexp, p, corr, api);
+            let full = pca_fit_opt(&x, &z, &off, &cexp, yexp, p, corr, api, !graded);
             let yf: Vec<Vec<f64>> = match &full {
                 Ok(Ok(o)) => o.y.clone(),
                 _ => vec![],
             };
             for k in 1..=p {
                 run += 1;
-                let r = pca_fit(&x, &z, &off, &cexp, yexp, k, corr, api);
+                let r = pca_fit_opt(&x, &z, &off, &cexp, yexp, k, corr, api, !graded);
                 let st = status_of(&r);
                 bump(format!("pca-{}", st));
                 let (fin, q) = match &r {
@@ -301,7 +334,7 @@ fn gen(path: &str) {
                     _ => (false, vec![]),
                 };
                 out.emit(json!({"run": run, "ev": "Pca", "fam": famtag, "mode": if corr {"corr"} else {"cov"}, "m": m, "p": p, "k": k,
-                    "X": x, "Z": z, "off": off, "cexp": cexp, "entry": if api { "api" } else { "inherent" }, "status": st, "fin": fin, "q": q}));
+                    "X": x, "Z": z, "off": off, "cexp": if graded { vec![0; p] } else { cexp.clone() }, "gexp": gexp, "entry": if api { "api" } else { "inherent" }, "status": st, "fin": fin, "q": q}));
             }
         }
         // ---- truncated SVD, every k <= p (k = p must be rejected).  No centring here, so the
@@ -312,10 +345,10 @@ fn gen(path: &str) {
             x.iter().map(|r| (0..p).map(|j| r[j] - mu[j] + offs[j]).collect()).collect()
         };
         let z: Vec<Vec<i64>> = gen_z(&mut rng, &x);
-        let sv = guard(|| dm(&x).svd().map_err(|_| ()));
+        let sv = guard(|| dmg(&x, &gexp).svd().map_err(|_| ()));
         for k in 1..=p {
             run += 1;
-            let r = tsvd_fit(&x, &z, k, api);
+            let r = tsvd_fit(&x, &z, &gexp, k, api);
             let st = status_of(&r);
             bump(format!("tsvd-{}{}", st, if k == p { "(k=p)" } else { "" }));
             let (fin, q) = match (&r, &sv) {
@@ -328,7 +361,7 @@ fn gen(path: &str) {
                 _ => (false, vec![]),
             };
             out.emit(json!({"run": run, "ev": "Tsvd", "fam": famtag, "m": m, "p": p, "k": k,
-                "X": x, "Z": z, "off": vec![0i64; p], "cexp": vec![0i32; p], "entry": if api { "api" } else { "inherent" }, "status": st, "fin": fin, "q": q}));
+                "X": x, "Z": z, "off": vec![0i64; p], "cexp": vec![0i32; p], "gexp": gexp, "entry": if api { "api" } else { "inherent" }, "status": st, "fin": fin, "q": q}));
         }
     }
     let n = out.finish();
@@ -346,14 +379,17 @@ fn replay_file(input: &str, path: &str) {
         let p = x[0].len();
         let off: Vec<i64> = serde_json::from_value(e["off"].clone()).unwrap_or(vec![0; p]);
         let api = e["entry"] == "api";
+        let gexp: Vec<i32> = serde_json::from_value(e["gexp"].clone()).unwrap_or(vec![0; p]);
+        let graded = gexp.iter().any(|&g| g != 0);
         let mut o = e.clone();
         if e["ev"] == "Pca" {
             let corr = e["mode"] == "corr";
             let cexp: Vec<i32> = serde_json::from_value(e["cexp"].clone()).unwrap_or(vec![0; p]);
-            let yexp = if corr { 0 } else { cexp[0] };
-            let full = pca_fit(&x, &z, &off, &cexp, yexp, p, corr, api);
+            let yexp = if corr || graded { 0 } else { cexp[0] };
+            let cexp = if graded { gexp.clone() } else { cexp };
+            let full = pca_fit_opt(&x, &z, &off, &cexp, yexp, p, corr, api, !graded);
             let yf: Vec<Vec<f64>> = match &full { Ok(Ok(o)) => o.y.clone(), _ => vec![] };
-            let r = pca_fit(&x, &z, &off, &cexp, yexp, k, corr, api);
+            let r = pca_fit_opt(&x, &z, &off, &cexp, yexp, k, corr, api, !graded);
             o["status"] = json!(status_of(&r));
             match &r {
                 Ok(Ok(f)) => {
@@ -367,8 +403,8 @@ fn replay_file(input: &str, path: &str) {
                 }
             }
         } else {
-            let sv = guard(|| dm(&x).svd().map_err(|_| ()));
-            let r = tsvd_fit(&x, &z, k, api);
+            let sv = guard(|| dmg(&x, &gexp).svd().map_err(|_| ()));
+            let r = tsvd_fit(&x, &z, &gexp, k, api);
             o["status"] = json!(status_of(&r));
             match (&r, &sv) {
                 (Ok(Ok(f)), Ok(Ok(svd))) => {
